@@ -6,7 +6,7 @@
     Spec.Bed.decode          an independent 12-column reader (unsigned decimal columns; a sign is invalid)
     Spec.Bed.okBed12 w ans   `ans` decodes, satisfies the format invariants (count = |sizes| = |starts| ≥ 1,
                              first start 0, starts ascending, last start + last size = end − start, thick range
-                             inside [start,end]) and gives back exactly blocks / strand / name / chrom / score /
+                             inside [start,end] or the `0 0` no-thick convention) and gives back exactly blocks / strand / name / chrom / score /
                              colour / coding bounds in the coordinate system with origin `w.off`
     Model.Bed.txCore / featCore   mirror of `to_bed12` (`repaired = false`: the code as it is)
   Every theorem quantifies over ALL intervals of the domain `wf`: any number of non-empty ascending
@@ -33,7 +33,7 @@ theorem verdict_meaning (w : Want) (line : List Char) (h : okBed12 w (some line)
       ∧ r.blockCount = r.blockSizes.length ∧ r.blockCount = r.blockStarts.length ∧ 1 ≤ r.blockCount
       ∧ r.blockStarts.head? = some 0 ∧ ascending r.blockStarts = true
       ∧ lastReach r.blockStarts r.blockSizes = some (r.«end» - r.start)
-      ∧ r.thickStart ≤ r.thickEnd ∧ (r.thickStart = r.thickEnd ∨ (r.start ≤ r.thickStart ∧ r.thickEnd ≤ r.«end»))
+      ∧ r.thickStart ≤ r.thickEnd ∧ ((r.thickStart = 0 ∧ r.thickEnd = 0) ∨ (r.start ≤ r.thickStart ∧ r.thickEnd ≤ r.«end»))
       ∧ (blocksOf r).map (shiftUp w.off) = w.exons ∧ r.strand = w.strand ∧ r.name = w.name
       ∧ r.chrom = w.chrom ∧ (cdsOf r).map (shiftUp w.off) = w.cds := by
   cases hd : decode line with
